@@ -165,10 +165,14 @@ def findlabels_pre_310(code, opc):
 NO_LINE_NUMBER = -128
 
 
-def findlinestarts(code, dup_lines=False):
+def findlinestarts(code, dup_lines=False, signed_line_deltas=True):
     """Find the offsets in a byte code which are start of lines in the source.
 
     Generate pairs (offset, lineno) as described in Python/compile.c.
+
+    Line increments in ``co_lnotab`` are signed bytes from Python 3.6 on;
+    before that they are unsigned. Pass ``signed_line_deltas=False`` for
+    bytecode older than 3.6.
     """
 
     if hasattr(code, "co_lines"):
@@ -217,14 +221,20 @@ def findlinestarts(code, dup_lines=False):
                         return
                     offset += byte_incr
                     pass
-                if line_delta >= 0x80:
-                    # line_deltas is an array of 8-bit *signed* integers
+                if signed_line_deltas and line_delta >= 0x80:
+                    # Since 3.6, line_deltas is an array of 8-bit *signed* integers
                     line_delta -= 0x100
                 lineno += line_delta
             if lineno != lastlineno or (dup_lines and 0 < byte_incr < 255):
                 yield offset, lineno
 
     return
+
+
+def findlinestarts_pre36(code, dup_lines=False):
+    """findlinestarts() for bytecode before 3.6, where the line
+    increments of ``co_lnotab`` are unsigned bytes."""
+    return findlinestarts(code, dup_lines=dup_lines, signed_line_deltas=False)
 
 
 def instruction_size(op, opc):
